@@ -137,7 +137,7 @@ class MemMapWorld(World):
                 ops.append({"k": "freeze", "m": m})
             elif k < 69:
                 ops.append({"k": "peek", "m": m, "n": rng.range(0, 3),
-                            "what": rng.choice(["all", "all", "res", "win", "find", "decode"])})
+                            "what": rng.choice(["all", "all", "res", "win", "find", "decode", "pat"])})
             elif k < 66:
                 ops.append({"k": "bridge", "m": m})
             else:
@@ -354,8 +354,9 @@ class MemMapWorld(World):
                 n = int(op.get("n", 0))
                 what = op.get("what", "all")
                 stats.fault("abandoned_query")
-                if what in ("all", "res", "win"):
-                    it = {"all": mm.all_resources, "res": mm.resources, "win": mm.windows}[what]()
+                if what in ("all", "res", "win", "pat"):
+                    it = {"all": mm.all_resources, "res": mm.resources, "win": mm.windows,
+                          "pat": mm.window_patterns}[what]()
                     for _ in range(n):
                         if next(it, None) is None:
                             break
